@@ -10,18 +10,18 @@ ALL = [f'C{i:02d}' for i in range(1, 21)]
 
 TRUST = 'Trusted: CPython 3.12, SQLite 3.40, expat; the plain-Python reference model / oracle in /verif/wnmc; the stated alphabets and bounds.'
 
-CHECKS = {
-    'C01': dict(
-        category='exploration', design_ref='DESIGN.md §3 C01, §2.2-2.4',
-        technique='deviation-bounded exhaustive enumeration of WN-LMF documents (features, shapes x BATCH_SIZE, payloads, extensions) on the real add/query path vs a reference model',
-        text='Abstract documents for LMF 1.0-1.3 are derived from a maximal and a minimal document by every single optional-feature deviation (thorough: every pair), every repeatable slot at 0..4 items crossed with BATCH_SIZE 1/2/3/1000, every string slot x every payload of a nasty-character alphabet, multi-lexicon files and every documented extension pattern; each is written by an independent serializer, added with wn.add and the complete public-API transcript (restricted and default mode) is compared with the transcript the reference model derives from the document. Exhaustive within the stated deviation bound.',
-        note=TRUST + ' Own XML writer; ids limited to XML-name-like strings; <=4 items per list; <=2 simultaneous deviations; tie-ranked orders (extension senses/forms/members) compared as sets.'),
-    'C13': dict(
-        category='exploration', design_ref='DESIGN.md §3 C13, §2.6',
-        technique='bounded-exhaustive enumeration of all labelled hypernym digraphs (n<=4, DAGs n=5) on the real code vs a reference graph model',
-        text='Every labelled digraph up to the node bound (self-loops, cycles, edge typings, pos colourings, hyponym-declaration modes) is loaded into the real SQLite store and every taxonomy function is compared with a plain-Python reference on every node / ordered pair / simulate_root value; termination is decided by a step budget counted in relation queries. Exhaustive within the bound, nothing sampled.',
-        note=TRUST + ' lowest_common_hypernyms and simulate_root distances are compared exactly on DAGs only (depth is not a function of the node on cyclic graphs); graphs with >=6 nodes and the "random larger" half of the quantifier are outside the bound.'),
-}
+sys.path.insert(0, str(VERIF))
+sys.dont_write_bytecode = True
+import importlib  # noqa: E402
+
+CHECKS = {}
+for pid in ALL:
+    if (VERIF / 'wnmc' / 'props' / f'{pid.lower()}.py').exists():
+        mod = importlib.import_module(f'wnmc.props.{pid.lower()}')
+        if getattr(mod, 'MANIFEST', None):
+            d = dict(mod.MANIFEST)
+            d['note'] = (TRUST + ' ' + d.get('note', '')).strip()
+            CHECKS[pid] = d
 
 NOT_YET = 'check not built yet in this session (planned: DESIGN.md §3); not claimed until it runs clean'
 
